@@ -248,6 +248,53 @@ func tableRegistry() []kase {
 	return ks
 }
 
+// tableRegistryKeys: core-registry callables with &key parameters x keyword-shaped argument lists: every
+// sequence of up to 3 pairs over {declared keys, an undeclared key} (repeats included: a repeated keyword
+// binds fine, the last one wins) after the required positionals.
+func tableRegistryKeys() []kase {
+	var ks []kase
+	add := func(kind string, defs []lisp.LBuiltinDef) {
+		for _, d := range defs {
+			s, ok := parseFormals(d.Formals())
+			if !ok || s.key == 0 {
+				continue
+			}
+			var keys []string
+			inKey := false
+			for _, c := range d.Formals().Cells {
+				if c.Str == "&key" {
+					inKey = true
+					continue
+				}
+				if inKey && !strings.HasPrefix(c.Str, "&") {
+					keys = append(keys, ":"+c.Str)
+				}
+			}
+			alpha := append(append([]string{}, keys...), ":zz")
+			for n := 0; n <= 3; n++ {
+				total := 1
+				for i := 0; i < n; i++ {
+					total *= len(alpha)
+				}
+				for idx := 0; idx < total; idx++ {
+					x := idx
+					args := strings.TrimSpace(strings.Repeat(" 1", s.req))
+					for i := 0; i < n; i++ {
+						args += " " + alpha[x%len(alpha)] + " 1"
+						x /= len(alpha)
+					}
+					ks = append(ks, kase{Table: "T1-registry-keys", Src: "(" + d.Name() + " " + strings.TrimSpace(args) + ")", Line: 1, Callee: d.Name(),
+						HasKey: true, Class: "registry-keys:" + d.Name(), WantPkg: "lisp", Registry: true})
+				}
+			}
+		}
+	}
+	add("builtin", lisp.DefaultBuiltins())
+	add("op", lisp.DefaultSpecialOps())
+	add("macro", lisp.DefaultMacros())
+	return ks
+}
+
 // user signature shapes: req* [&optional o+] ([&rest r] | [&key k+])
 type ushape struct{ req, opt, key int; rest bool }
 
@@ -422,7 +469,7 @@ func run(r *core.Run) {
 		maxLen = 6
 	}
 	var all []kase
-	t1 := tableRegistry()
+	t1 := append(tableRegistry(), tableRegistryKeys()...)
 	t2 := tableUser(maxLen)
 	t3 := tableShadow(shadowNames)
 	all = append(all, t1...)
